@@ -57,21 +57,141 @@ def is_ptr(t):
     return bool(t) and t.get("k") == "ptr"
 
 
-class State(object):
-    __slots__ = ("facts", "sym", "streams", "mods")
+UNION_ARMS = {"big_buffer_ptr": "big", "small_buffer": "small"}
 
-    def __init__(self, facts_=frozenset(), sym=None, streams=None, mods=frozenset()):
+# Preconditions of internal helpers (checked at every call site by check_preconditions):
+#   (function, parameter index) -> (member vector the pointer lies in, "within")
+PRECONDITIONS = {
+    ("Tins::DNS::compose_name", 0): ("records_data_", "within"),
+    ("Tins::DNS::convert_records", 0): ("records_data_", "within"),
+    ("Tins::DNS::convert_records", 1): ("records_data_", "within"),
+    ("Tins::DNS::update_dname", 0): ("records_data_", "within"),
+}
+#   function -> [(i, j)]: parameter i <= parameter j (both pointers into the same vector)
+PRE_ORDER = {
+    "Tins::DNS::convert_records": [(0, 1)],
+}
+# Class invariants: assumed on entry of every non-constructor member function, proved at every normal exit of
+# constructors and non-const member functions.  Each item: (text, [(sign, ("fld"|"size", name)), ...]) meaning sum >= 0
+CLASS_INVARIANTS = {
+    "Tins::DNS": [
+        ("answers_idx_ <= authority_idx_", [(1, ("fld", "authority_idx_")), (-1, ("fld", "answers_idx_"))]),
+        ("authority_idx_ <= additional_idx_", [(1, ("fld", "additional_idx_")), (-1, ("fld", "authority_idx_"))]),
+        ("additional_idx_ <= records_data_.size()", [(1, ("call", "records_data_.size()")), (-1, ("fld", "additional_idx_"))]),
+    ],
+}
+#   (function, parameter index) -> size in bytes of the output buffer the caller must provide
+OUT_BUFFERS = {
+    ("Tins::DNS::compose_name", 1): 256,
+    ("Tins::DNS::inline_convert_v4", 1): 16,
+}
+
+
+def radiotap_option_sizes(db, cache={}):
+    """Postcondition of RadioTap::do_find_option(F): the option it returns holds exactly
+    RADIOTAP_METADATA[bit(F)].size bytes.  The postcondition is only used when its ingredients
+    are present in the current tree (checked here on resolved AST shapes):
+      (i)   RadioTapParser::current_option() takes `size` from RADIOTAP_METADATA[current_bit_].size, throws when
+            current_ptr_ + size > end_ and returns option(current_field(), size, current_ptr_);
+      (ii)  RadioTapParser::current_field() returns 1 << current_bit_;
+      (iii) RadioTapParser::skip_to_field(flag) loops while has_fields() && current_field() != flag;
+      (iv)  RadioTap::do_find_option(type) throws unless parser.skip_to_field(type), then returns parser.current_option().
+    Returns {flag value: size} or None."""
+    if db.key in cache:
+        return cache[db.key]
+    res = None
+    try:
+        g = db.globals.get("g:Tins::Utils::RadioTapParser::RADIOTAP_METADATA")
+        co = db.fns_named("Tins::Utils::RadioTapParser::current_option")
+        cf = db.fns_named("Tins::Utils::RadioTapParser::current_field")
+        sk = db.fns_named("Tins::Utils::RadioTapParser::skip_to_field")
+        df = db.fns_named("Tins::RadioTap::do_find_option")
+        ok = bool(g and g.get("init") and co and cf and sk and df)
+        if ok:
+            rows = [[facts.cval(x) for x in r.get("c", [])] for r in g["init"].get("c", []) if r["k"] == "InitListExpr"]
+            ok = len(rows) >= 20 and all(len(r) == 2 and r[0] for r in rows)
+        if ok:
+            f = co[0]
+            txt = " ".join(facts.expr_str(n) for n in facts.fn_nodes(f) if n["k"] in ("VarDecl", "ReturnStmt", "IfStmt") or True)
+            size_var = None
+            for n in facts.fn_nodes(f):
+                if n["k"] == "VarDecl" and n.get("c"):
+                    e = facts.strip_all(n["c"][0])
+                    if e["k"] == "MemberExpr" and e.get("member") == "size":
+                        b = strip(e["c"][0])
+                        if b["k"] == "ArraySubscriptExpr" and "RADIOTAP_METADATA" in facts.expr_str(b["c"][0]) and \
+                                facts.expr_str(b["c"][1]) == "current_bit_":
+                            size_var = n["var"]
+            guard = False
+            ret = False
+            for n in facts.fn_nodes(f):
+                if n["k"] == "IfStmt":
+                    for (op, l, r) in cond.facts_of(f, n["c"][0] if n["c"][0] is not None else n["c"][1], True):
+                        if op == ">" and r is not None and facts.expr_str(r) == "end_" and \
+                                strip(l)["k"] == "BinaryOperator" and strip(l)["op"] == "+" and \
+                                facts.expr_str(strip(l)["c"][0]) == "current_ptr_" and strip(strip(l)["c"][1]).get("var") == size_var:
+                            if any(x["k"] == "CXXThrowExpr" for x in facts.walk(n)):
+                                guard = True
+                if n["k"] == "ReturnStmt":
+                    for x in facts.walk(n):
+                        if x["k"] in ("CXXConstructExpr", "CXXTemporaryObjectExpr") and (x.get("crec") or "").startswith("Tins::PDUOption<") \
+                                and len(x.get("c", [])) == 3:
+                            a = x["c"]
+                            if "current_field" in facts.expr_str(a[0]) and strip(a[1]).get("var") == size_var and \
+                                    facts.expr_str(a[2]) == "current_ptr_":
+                                ret = True
+            ok = bool(size_var and guard and ret)
+        if ok:
+            from rules import c13 as _c13
+            e = _c13.ret_expr(cf[0])
+            ok = e is not None and "(1 << current_bit_)" in facts.expr_str(e)
+        if ok:
+            f = sk[0]
+            loops = [n for n in facts.fn_nodes(f) if n["k"] == "WhileStmt"]
+            ok = len(loops) == 1
+            if ok:
+                c = loops[0]["c"][0] if len(loops[0]["c"]) == 2 else loops[0]["c"][1]
+                at = cond.facts_of(f, c, True)
+                pv = f["params"][0]["var"]
+                ok = any(op == "!=" and r is not None and "current_field" in facts.expr_str(l) and strip(r).get("var") == pv for op, l, r in at) and \
+                    any(op == "true" and "has_fields" in facts.expr_str(l) for op, l, r in at)
+                rets = [n for n in facts.fn_nodes(f) if n["k"] == "ReturnStmt"]
+                ok = ok and len(rets) == 1 and "has_fields" in facts.expr_str(rets[0]["c"][0])
+        if ok:
+            f = df[0]
+            pv = f["params"][0]["var"]
+            gg = cfg.FnCFG(f)
+            rets = [n for n in facts.fn_nodes(f) if n["k"] == "ReturnStmt"]
+            ok = len(rets) == 1 and "current_option" in facts.expr_str(rets[0]["c"][0])
+            if ok:
+                gfs = cond.guards_facts(gg, gg.pos(rets[0]))
+                ok = any(op == "true" and "skip_to_field" in facts.expr_str(l) and
+                         any(x.get("var") == pv for x in facts.walk(l)) for op, l, r in gfs)
+        if ok:
+            res = dict(((1 << i), rows[i][0]) for i in range(len(rows)))
+    except Exception:
+        res = None
+    cache[db.key] = res
+    return res
+
+
+class State(object):
+    __slots__ = ("facts", "sym", "streams", "mods", "snaps")
+
+    def __init__(self, facts_=frozenset(), sym=None, streams=None, mods=frozenset(), snaps=None):
         self.facts = facts_
         self.sym = sym or {}
         self.streams = streams or {}   # stream var -> (base Lin, extent Lin)
         self.mods = mods               # {(Lin, m)}: Lin == 0 (mod m)
+        self.snaps = snaps or {}       # snapshot atom -> its value in terms of the moving cursor (kept current)
 
     def copy(self):
-        return State(self.facts, dict(self.sym), dict(self.streams), self.mods)
+        return State(self.facts, dict(self.sym), dict(self.streams), self.mods, dict(self.snaps))
 
     def key(self):
         return (self.facts, tuple(sorted(self.sym.items(), key=lambda kv: kv[0])),
-                tuple(sorted(self.streams.items(), key=lambda kv: kv[0])), self.mods)
+                tuple(sorted(self.streams.items(), key=lambda kv: kv[0])), self.mods,
+                tuple(sorted(self.snaps.items(), key=lambda kv: kv[0])))
 
 
 def congruent(D, m, mods):
@@ -111,6 +231,11 @@ class FnBounds(object):
         self.pairs = pair_params if pair_params is not None else self.find_pairs()
         self.requirements = []  # for summaries: (param index, Lin need over p0 atoms)
         self.field_writes = 0
+        self.init_member = {}
+        for i in f.get("inits", []):
+            if i.get("member") and i.get("e"):
+                self.init_member[i["e"]["id"]] = i["member"]
+        self.exit_states = []
 
     # ------------------------------------------------------------------ setup
     def find_pairs(self):
@@ -130,6 +255,10 @@ class FnBounds(object):
         for p in f["params"]:
             t = facts.tyi(f, p["t"])
             v = p["var"]
+            if t and t.get("k") == "ref" and is_int(t.get("to")) and not (t.get("to") or {}).get("const"):
+                t = t["to"]      # int& parameter: its current value is tracked like a local
+            elif t and t.get("k") == "ref" and is_int(t.get("to")):
+                t = t["to"]
             if is_int(t) or is_ptr(t):
                 a = ("p0", v)
                 st.sym[v] = atom(a)
@@ -149,6 +278,29 @@ class FnBounds(object):
         for pv, lv in self.pairs.items():
             b = ("p0", pv)
             self.extent[b] = atom(("p0", lv))
+        if f.get("rec") in (STREAM, OSTREAM):
+            # the cursor classes themselves: buffer_ is readable/writable for size_ bytes
+            self.extent[("fld", "buffer_")] = atom(("fld", "size_"))
+        for (qual, pidx), (vec, kind) in PRECONDITIONS.items():
+            if f["qual"] == qual and pidx < len(f["params"]):
+                pv = f["params"][pidx]["var"]
+                b = ("vec", vec)
+                self.extent[b] = atom(("call", vec + ".size()"))
+                off = ("p0off", pv)
+                st.sym[pv] = atom(b) + atom(off)
+                fs.add(self.extent[b] - atom(off))        # 0 <= off <= size
+                self.pairs.pop(pv, None)
+        for (i, j) in PRE_ORDER.get(f["qual"], []):
+            if i < len(f["params"]) and j < len(f["params"]):
+                fs.add(atom(("p0off", f["params"][j]["var"])) - atom(("p0off", f["params"][i]["var"])))
+        if f.get("rec") in CLASS_INVARIANTS and f.get("kind") != "ctor":
+            for text, terms in CLASS_INVARIANTS[f["rec"]]:
+                fs.add(self.inv_lin(terms))
+        for (qual, pidx), nbytes in OUT_BUFFERS.items():
+            if f["qual"] == qual and pidx < len(f["params"]):
+                pv = f["params"][pidx]["var"]
+                self.extent[("p0", pv)] = const(nbytes)
+                self.pairs.pop(pv, None)
         if self.export:
             for p in f["params"]:
                 t = facts.tyi(f, p["t"])
@@ -158,6 +310,85 @@ class FnBounds(object):
                         self.extent[("p0", p["var"])] = atom(("xext", p["var"]))
         st.facts = frozenset(fs)
         return st
+
+    def inv_lin(self, terms):
+        L = const(0)
+        for sg, a in terms:
+            L = L + atom(a).scale(sg)
+        return L
+
+    def check_exit_invariants(self, st, node):
+        f = self.f
+        if f.get("rec") not in CLASS_INVARIANTS:
+            return
+        if not (f.get("kind") == "ctor" or (f.get("kind") == "method" and not f.get("const") and not f.get("static"))):
+            return
+        for text, terms in CLASS_INVARIANTS[f["rec"]]:
+            G = self.inv_lin(terms)
+            fake = {"id": "inv:%s:%s" % (text, node["id"]), "l": node.get("l", f["line"]), "k": "Invariant"}
+            if self.prove(G, st):
+                self.record(fake, "invariant", text, "ok", "class invariant holds when the function returns")
+            else:
+                self.record(fake, "invariant", text, "violation",
+                            "class invariant `%s` is not re-established on a path to this return; facts: {%s}" %
+                            (text, ", ".join("%s>=0" % x for x in sorted(st.facts, key=repr)[:8])))
+
+    def check_call_preconditions(self, n, args, st, pos):
+        """obligations at call sites of helpers that assume their pointer arguments lie in a member vector"""
+        callee = n.get("callee")
+        g = self.db.fn(callee) if callee else None
+        if g is None:
+            return
+        q = g["qual"]
+        offs = {}
+        for (qual, pidx), (vec, kind) in PRECONDITIONS.items():
+            if qual != q or pidx >= len(args):
+                continue
+            P = self.lin(args[pidx], st, pos)
+            b = ("vec", vec)
+            text = "%s(arg %d = %s) must point into %s" % (g["name"], pidx, facts.expr_str(args[pidx])[:40], vec)
+            if P is None or P.terms().get(b) != 1:
+                self.record(args[pidx], "precondition", text, "violation" if P is not None else "undecided",
+                            "argument %s is not derived from %s" % (P, vec))
+                continue
+            off = P - atom(b)
+            offs[pidx] = off
+            ext = self.extent.get(b, atom(("call", vec + ".size()")))
+            self.extent[b] = ext
+            if self.prove(off, st) and self.prove(ext - off, st):
+                self.record(args[pidx], "precondition", text, "ok", "offset %s within [0, %s]" % (off, ext))
+            else:
+                self.record(args[pidx], "precondition", text, "violation",
+                            "cannot show 0 <= %s <= %s from the guards in force: {%s}" %
+                            (off, ext, ", ".join("%s>=0" % x for x in sorted(st.facts, key=repr)[:8])))
+        for (i, j) in PRE_ORDER.get(q, []):
+            if i in offs and j in offs:
+                fake = {"id": "ord:%s" % n["id"], "l": n.get("l", 0), "k": "Order"}
+                text = "%s: argument %d <= argument %d" % (g["name"], i, j)
+                if self.prove(offs[j] - offs[i], st):
+                    self.record(fake, "precondition", text, "ok", "%s <= %s" % (offs[i], offs[j]))
+                else:
+                    self.record(fake, "precondition", text, "violation", "cannot show %s <= %s" % (offs[i], offs[j]))
+        for (qual, pidx), nbytes in OUT_BUFFERS.items():
+            if qual != q or pidx >= len(args):
+                continue
+            a = facts.strip_all(args[pidx])
+            t = facts.ty(self.f, a)
+            text = "%s(arg %d) needs an output buffer of %d bytes" % (g["name"], pidx, nbytes)
+            cap = None
+            if t and t.get("k") == "arr" and t.get("n") is not None:
+                cap = t["n"] * self.elem_size({"to": t.get("to")})
+            if cap is None:
+                # forwarded parameter with the same contract?
+                if a["k"] == "DeclRefExpr" and a.get("parm"):
+                    pi = [k_ for k_, p_ in enumerate(self.f["params"]) if p_["var"] == a.get("var")]
+                    if pi and OUT_BUFFERS.get((self.f["qual"], pi[0]), 0) >= nbytes:
+                        cap = OUT_BUFFERS[(self.f["qual"], pi[0])]
+            if cap is not None and cap >= nbytes:
+                self.record(args[pidx], "precondition", text, "ok", "buffer of %d bytes passed" % cap)
+            else:
+                self.record(args[pidx], "precondition", text, "violation" if cap is not None else "undecided",
+                            "output buffer %s has %s bytes" % (facts.expr_str(a), cap))
 
     def callee_requirements(self, callee):
         """[(param index, need Lin over the callee's p0 atoms)] or None"""
@@ -219,7 +450,10 @@ class FnBounds(object):
                     return sub
                 if self.prove(const((1 << t.get("w", 64)) - 1) - sub, st):
                     return sub
-                return self.opaque(e, "narrow")
+                o = self.opaque(e, "narrow")
+                if is_unsigned(s) and is_unsigned(t) and self.prove(sub, st):
+                    self.pending.append(sub - o)     # truncation of a non-negative value never increases it
+                return o
             return sub
         if k == "DeclRefExpr":
             var = e.get("var")
@@ -316,7 +550,8 @@ class FnBounds(object):
                     return self.container_data(x, st)
                 return self.opaque(e, "addr")
             if e["op"] in ("++", "--"):
-                return None
+                # value computed when the increment itself was evaluated (it precedes its users in the CFG)
+                return self.incval.get(e["id"])
             if e["op"] == "-":
                 a = self.lin(c[0], st, pos)
                 return a.scale(-1) if a is not None else None
@@ -377,7 +612,7 @@ class FnBounds(object):
         return 1
 
     def opaque(self, e, tag):
-        a = ("ld", e["id"], tag)
+        a = ("ld", str(e["id"]), tag)
         t = facts.ty(self.f, e)
         if is_int(t):
             if not is_unsigned(t):
@@ -387,8 +622,35 @@ class FnBounds(object):
         self.fresh.add(a)
         return atom(a)
 
+    def vec_base(self, obj):
+        """base atom of the storage of a std::vector<uint8_t>-like object expression"""
+        t = facts.ty(self.f, obj)
+        while t and t.get("k") == "ref":
+            t = t.get("to")
+        nm = (t or {}).get("name", "")
+        if not (nm.startswith("std::vector<unsigned char") or nm.startswith("std::vector<char") or
+                nm.startswith("std::array<unsigned char") or nm.startswith("std::basic_string<char")):
+            return None
+        name = facts.expr_str(obj)
+        b = ("vec", name)
+        self.extent[b] = atom(("call", name + ".size()"))
+        return b
+
     def container_data(self, x, st):
-        """&v[0] / &*v.begin() of a std::vector: base atom with extent v.size()"""
+        """&v[i] / &*v.begin() of a byte vector: base atom (extent v.size()) + i"""
+        cs = x.get("c", [])
+        if x.get("op") == "[]" and len(cs) == 3:
+            b = self.vec_base(strip(cs[1]))
+            i = self.lin(cs[2], st)
+            if b is not None and i is not None:
+                return atom(b) + i
+        if x.get("op") == "*" and len(cs) == 2:
+            y = strip(cs[1])
+            if y["k"] == "CXXMemberCallExpr" and y.get("cname") in ("begin", "cbegin"):
+                r = cfg.receiver(y)
+                b = self.vec_base(strip(r)) if r is not None else None
+                if b is not None:
+                    return atom(b)
         return None
 
     def call_value(self, e, st, pos):
@@ -422,6 +684,10 @@ class FnBounds(object):
                     # accessor whose body is `return <data member>;` -> the member itself
                     g_ = self.db.fn(e.get("callee"))
                     if g_ is not None and g_.get("body") and len(g_["body"].get("c", [])) == 1 and \
+                            g_["body"]["c"][0]["k"] == "ReturnStmt" and g_["body"]["c"][0].get("c") and \
+                            facts.cval(g_["body"]["c"][0]["c"][0]) is not None:
+                        return const(facts.cval(g_["body"]["c"][0]["c"][0]))
+                    if g_ is not None and g_.get("body") and len(g_["body"].get("c", [])) == 1 and \
                             g_["body"]["c"][0]["k"] == "ReturnStmt" and g_["body"]["c"][0].get("c"):
                         rx = facts.strip_all(g_["body"]["c"][0]["c"][0])
                         if rx["k"] == "MemberExpr" and rx.get("isfield") and rx.get("c") and strip(rx["c"][0])["k"] == "CXXThisExpr":
@@ -438,6 +704,8 @@ class FnBounds(object):
                     if is_int(t) and t.get("w", 64) <= 16:
                         self.ub[a] = (1 << t["w"]) - 1
                     # data_ptr()/begin() of an option / vector: a base with extent data_size()/size()
+                    if cname in ("data",) and self.vec_base(strip(r)) is not None:
+                        return atom(self.vec_base(strip(r)))
                     if cname in ("data_ptr",):
                         self.extent[a] = self.sibling_accessor(e, r, "data_size")
                     if self.db.fn(e.get("callee")) is not None:
@@ -501,14 +769,17 @@ class FnBounds(object):
     # ------------------------------------------------------------------ dataflow
     def run(self):
         g = self.g
-        inn = {g.entry: self.initial()}
+        init = self.initial()
+        edge = {}                 # (pred, succ) -> state flowing along that edge
+        inn = {g.entry: init}
         work = [g.entry]
         n_iter = 0
         self.fresh = set()
         self.pending = []
+        self.incval = {}
         while work:
             n_iter += 1
-            if n_iter > 3000:
+            if n_iter > 1500:
                 raise facts.AnalysisBroken("bounds analysis did not converge in %s" % self.f["id"])
             b = work.pop(0)
             st = inn[b].copy()
@@ -520,6 +791,9 @@ class FnBounds(object):
             succs = blk["s"]
             if b in g.throws:
                 continue
+            if g.exit in [x for x in succs if x is not None]:
+                last = g.idx.get(blk["e"][-1]) if blk["e"] else None
+                self.check_exit_invariants(st, last or self.f["body"])
             for k_, s in enumerate(succs):
                 if s is None:
                     continue
@@ -528,48 +802,135 @@ class FnBounds(object):
                     cnode = g.idx.get(blk["cond"])
                     if cnode is not None:
                         st2 = self.assume(st.copy(), cnode, k_ == 0)
-                if s not in inn:
-                    inn[s] = st2
-                    work.append(s)
+                ek = (b, k_, s)
+                if ek in edge and edge[ek].key() == st2.key():
+                    continue
+                edge[ek] = st2
+                # in-state of s = join over the latest states of all its incoming edges
+                ins = [v for (p_, kk, s_), v in sorted(edge.items(), key=lambda kv: (kv[0][0], kv[0][1])) if s_ == s]
+                if s in self.loop_heads() and s in inn:
+                    # loop heads only ever lose facts (monotone, guarantees termination): fold the incoming
+                    # edges into the previous state, which already carries the loop's phi values
+                    new = inn[s]
+                    for other in ins:
+                        new = self.join(new, other, s)
                 else:
-                    j = self.join(inn[s], st2, s)
-                    if j.key() != inn[s].key():
-                        inn[s] = j
-                        if s not in work:
-                            work.append(s)
+                    new = ins[0]
+                    for other in ins[1:]:
+                        new = self.join(new, other, s)
+                if s not in inn or inn[s].key() != new.key():
+                    inn[s] = new
+                    if s not in work:
+                        work.append(s)
         self.inn = inn
         return self
+
+    def project(self, G, X, Y, keep=()):
+        """weaken fact G (valid on side X) to atoms that side Y also knows: atoms local to X are replaced by
+        their constant bounds on X (upper bound for positive coefficients, lower bound for negative ones)"""
+        known = set(keep)
+        for F in Y.facts:
+            known.update(F.atoms())
+        for L in Y.sym.values():
+            known.update(L.atoms())
+        out = G
+        for a_, c_ in G.t:
+            if a_ in known or a_[0] in ("p0", "call", "fld", "vec", "av", "ext", "se", "sb", "p0off", "glob", "this"):
+                continue
+            bound = None
+            if c_ > 0:
+                # need an upper bound of a_
+                if a_ in self.ub:
+                    bound = self.ub[a_]
+                for F in X.facts:
+                    ft = F.terms()
+                    if len(ft) == 1 and ft.get(a_) == -1 and F.k >= 0:
+                        bound = F.k if bound is None else min(bound, F.k)
+            else:
+                bound = 0 if a_ not in self.signed else None
+                for F in X.facts:
+                    ft = F.terms()
+                    if len(ft) == 1 and ft.get(a_) == 1 and F.k <= 0:
+                        bound = -F.k if bound is None else max(bound, -F.k)
+            if bound is None:
+                return None
+            out = out.subst(a_, const(bound))
+        return out if out != G else None
+
+    def loop_heads(self):
+        if getattr(self, "_lh", None) is not None:
+            return self._lh
+        g = self.g
+        heads = set()
+        color = {}
+        stack = [(g.entry, iter([x for x in g.blocks[g.entry]["s"] if x is not None]))]
+        color[g.entry] = 1
+        while stack:
+            b, it = stack[-1]
+            nxt = next(it, None)
+            if nxt is None:
+                color[b] = 2
+                stack.pop()
+                continue
+            if color.get(nxt) == 1:
+                heads.add(nxt)
+            elif nxt not in color:
+                color[nxt] = 1
+                stack.append((nxt, iter([x for x in g.blocks[nxt]["s"] if x is not None])))
+        self._lh = heads
+        return heads
+
+    def base_of(self, L):
+        bs = [x for x in L.atoms() if x in self.extent and L.terms().get(x) == 1]
+        return bs[0] if len(bs) == 1 else None
 
     def join(self, a, b, blk):
         sym = {}
         kill = set()
+        based = {}     # phi atom -> base atom (the phi then stands for the offset from that base)
         for v in set(a.sym) | set(b.sym):
             if v in a.sym and v in b.sym:
                 if a.sym[v] == b.sym[v]:
                     sym[v] = a.sym[v]
                 else:
                     pa = ("phi", blk, v)
-                    t = None
-                    sym[v] = atom(pa)
+                    ba, bb = self.base_of(a.sym[v]), self.base_of(b.sym[v])
+                    if ba is not None and ba == bb:
+                        based[pa] = ba
+                        sym[v] = atom(ba) + atom(pa)
+                    else:
+                        sym[v] = atom(pa)
                     kill.add(pa)
                     if self.var_signed.get(v):
                         self.signed.add(pa)
             # variable defined on one path only: not available after the join
-        fa = frozenset(x for x in a.facts if not x.mentions(lambda at: at in kill and atom(at) != a.sym.get(at[2])))
-        fb = frozenset(x for x in b.facts if not x.mentions(lambda at: at in kill and atom(at) != b.sym.get(at[2])))
+
+        def val(st_, pa):
+            """value the phi atom stands for on side st_ (None when that side already carries the phi)"""
+            L = st_.sym.get(pa[2])
+            if L is None:
+                return None
+            if pa in based:
+                L = L - atom(based[pa])
+            return L
+
+        def carries(st_, pa):
+            L = val(st_, pa)
+            return L is not None and L == atom(pa)
+
+        fa = frozenset(x for x in a.facts if not x.mentions(lambda at: at in kill and not carries(a, at)))
+        fb = frozenset(x for x in b.facts if not x.mentions(lambda at: at in kill and not carries(b, at)))
         streams = {}
         for s in set(a.streams) & set(b.streams):
             if a.streams[s] == b.streams[s]:
                 streams[s] = a.streams[s]
-        mods = set(x for x in (a.mods & b.mods) if not x[0].mentions(lambda at: at in kill))
+        mods = set(x for x in (a.mods & b.mods) if not x[0].mentions(lambda at: at in kill and not (carries(a, at) and carries(b, at))))
         for pa in kill:
-            v = pa[2]
-            LA, LB = a.sym.get(v), b.sym.get(v)
+            LA, LB = val(a, pa), val(b, pa)
             if LA is None or LB is None:
                 continue
             for (X, LX, Y, LY) in ((a, LA, b, LB), (b, LB, a, LA)):
                 if LX == atom(pa):
-                    # X already carries phi: keep its congruences about phi when they hold for the other value
                     for (L, m) in X.mods:
                         if L.mentions(lambda at: at == pa) and congruent(L.subst(pa, LY), m, Y.mods | frozenset([(L, m)])):
                             mods.add((L, m))
@@ -581,17 +942,14 @@ class FnBounds(object):
         # relational facts about merged variables: F holds on side X in terms of the variable's value there;
         # keep it (in terms of the phi atom) when it also holds on the other side
         for pa in kill:
-            v = pa[2]
-            LA, LB = a.sym.get(v), b.sym.get(v)
-            if LA is None or LB is None or LA == atom(pa) or LB == atom(pa):
-                # one side already carries the phi value (loop back edge): its facts about phi are first-class
+            LA, LB = val(a, pa), val(b, pa)
+            if LA is None or LB is None:
+                continue
+            if LA == atom(pa) or LB == atom(pa):
                 side, other, LO = (a, b, LB) if LA == atom(pa) else (b, a, LA)
-                if LA is None or LB is None:
-                    continue
                 for F in side.facts:
                     if F.mentions(lambda at: at == pa):
-                        G2 = F.subst(pa, LO)
-                        if self.prove(G2, other):
+                        if self.prove(F.subst(pa, LO), other):
                             out.add(F)
                 continue
             for (X, LX, Y, LY) in ((a, LA, b, LB), (b, LB, a, LA)):
@@ -608,11 +966,24 @@ class FnBounds(object):
                             continue
                         if self.prove(G.subst(pa, LY), Y):
                             out.add(G)
-                if LX.is_const():
-                    pass
-            # template facts: phi <= remaining bytes of a stream / <= a length parameter
+                        else:
+                            # project away atoms that only side X knows, using their constant bounds there
+                            G2 = self.project(G, X, Y, keep=(pa,))
+                            if G2 is not None and G2 not in out and self.prove(G2.subst(pa, LY), Y):
+                                out.add(G2)
+            # template facts: phi <= remaining bytes of a stream / <= a length parameter / <= extent of its base
             cands = [atom(("av", sv)) - atom(pa) for sv in streams]
             cands += [atom(("p0", lv)) - atom(pa) for lv in self.pairs.values()]
+            if pa in based:
+                cands.append(self.extent[based[pa]] - atom(pa))
+                for pb in kill:
+                    if pb not in based and pb != pa:
+                        LA2, LB2 = val(a, pb), val(b, pb)
+                        if LA2 is not None and LB2 is not None:
+                            G2 = self.extent[based[pa]] - atom(pa) - atom(pb)
+                            if G2 not in out and self.prove(G2.subst(pa, LA).subst(pb, LA2), a) and \
+                                    self.prove(G2.subst(pa, LB).subst(pb, LB2), b):
+                                out.add(G2)
             for G in cands:
                 if G not in out and self.prove(G.subst(pa, LA), a) and self.prove(G.subst(pa, LB), b):
                     out.add(G)
@@ -620,7 +991,8 @@ class FnBounds(object):
             if LA.is_const() and LB.is_const():
                 out.add(atom(pa) - min(LA.k, LB.k))
                 out.add(const(max(LA.k, LB.k)) - atom(pa))
-        return State(frozenset(out), sym, streams, frozenset(mods))
+        snaps = dict((k_, v_) for k_, v_ in a.snaps.items() if b.snaps.get(k_) == v_)
+        return State(frozenset(out), sym, streams, frozenset(mods), snaps)
 
     var_signed = {}
 
@@ -637,6 +1009,12 @@ class FnBounds(object):
                     rc = cfg.receiver(x)
                     rn = tname(facts.ty(self.f, rc)) if rc is not None else None
                     rs = strip(rc) if rc is not None else None
+                    if rs is not None and rs["k"] == "CXXThisExpr" and self.f.get("rec") in (STREAM, OSTREAM) and \
+                            x.get("cname") == "can_read" and cfg.args(x):
+                        n_ = self.lin(cfg.args(x)[0], st)
+                        if n_ is not None:
+                            new.add(atom(("fld", "size_")) - n_ if op == "true" else n_ - atom(("fld", "size_")) - 1)
+                        continue
                     if rn in (STREAM, OSTREAM) and rs["k"] == "DeclRefExpr" and rs.get("var") in st.streams:
                         av = atom(("av", rs["var"]))
                         if x.get("cname") == "can_read" and cfg.args(x):
@@ -708,19 +1086,51 @@ class FnBounds(object):
         st.facts = frozenset(x for x in st.facts if not x.mentions(pred))
         for v in list(st.sym):
             if st.sym[v].mentions(pred):
-                st.sym[v] = atom(("ld", "k%d" % id(st) if False else v, "killed"))
+                st.sym[v] = atom(("ld", "k" + str(v), "killed"))
                 self.fresh.add(st.sym[v].atoms()[0])
         return st
 
-    def consume(self, st, sv, n):
+    def consume(self, st, sv, n, node_id=None):
         """stream sv advances by Lin n (n None = unknown amount)"""
         av = ("av", sv)
         if n is None:
             base, ext = st.streams[sv]
-            self.kill_atoms(st, lambda a: a == av)
-            st.facts = frozenset(set(st.facts) | set([ext - atom(av)]))
+            self._ghost = getattr(self, "_ghost", 0) + 1
+            gh = ("ld", "g%s" % (node_id if node_id is not None else self._ghost), "avold:" + sv.split("#")[0])
+            self.fresh.add(gh)
+            # the old remaining-bytes value lives on as a ghost; the new one is not larger
+            st.facts = frozenset(x.subst(av, atom(gh)) for x in st.facts if not x.mentions(lambda a: a == gh))
+            for v in st.sym:
+                st.sym[v] = st.sym[v].subst(av, atom(gh))
+            for s_ in st.streams:
+                b_, e_ = st.streams[s_]
+                st.streams[s_] = (b_.subst(av, atom(gh)), e_.subst(av, atom(gh)))
+            for k_ in list(st.snaps):
+                st.snaps[k_] = st.snaps[k_].subst(av, atom(gh))
+            base, ext = st.streams[sv]
+            st.facts = frozenset(set(st.facts) | set([ext - atom(av), atom(gh) - atom(av)]))
+            return st
+        if n.mentions(lambda a: a == av):
+            # the amount itself depends on the remaining bytes (e.g. skip(stream.size() - k)):
+            # freeze the old value in a ghost, then av_new == ghost - n[ghost]
+            self._ghost = getattr(self, "_ghost", 0) + 1
+            gh = ("ld", "g%s" % (node_id if node_id is not None else self._ghost), "avold:" + sv.split("#")[0])
+            self.fresh.add(gh)
+            st.facts = frozenset(x.subst(av, atom(gh)) for x in st.facts if not x.mentions(lambda a: a == gh))
+            for v in st.sym:
+                st.sym[v] = st.sym[v].subst(av, atom(gh))
+            for s_ in st.streams:
+                b_, e_ = st.streams[s_]
+                st.streams[s_] = (b_.subst(av, atom(gh)), e_.subst(av, atom(gh)))
+            for k_ in list(st.snaps):
+                st.snaps[k_] = st.snaps[k_].subst(av, atom(gh))
+            n2 = n.subst(av, atom(gh))
+            new = atom(gh) - n2
+            st.facts = frozenset(set(st.facts) | set([atom(av) - new, new - atom(av)]))
             return st
         repl = atom(av) + n
+        for k_ in list(st.snaps):
+            st.snaps[k_] = st.snaps[k_].subst(av, repl)
         st.facts = frozenset(x.subst(av, repl) for x in st.facts)
         for v in st.sym:
             st.sym[v] = st.sym[v].subst(av, repl)
@@ -731,7 +1141,26 @@ class FnBounds(object):
 
     def set_var(self, st, var, L, node):
         if L is None:
-            L = atom(("ld", node["id"], "asg"))
+            L = atom(("ld", str(node["id"]), "asg"))
+        elif L.mentions(lambda a: a[0] == "av"):
+            # a value taken from a moving cursor: snapshot it in a stable atom so that both arms of a later
+            # branch keep the same symbolic value (the defining equalities move with the cursor instead)
+            snap = ("ld", str(node["id"]), "snap:" + var.split("#")[0])
+            self.fresh.add(snap)
+            B = self.base_of(L)
+            val = L - atom(B) if B is not None else L
+            st.facts = frozenset(x for x in st.facts if not x.mentions(lambda a: a == snap))
+            st.snaps.pop(snap, None)
+            self.pending += [atom(snap) - val, val - atom(snap)]
+            # relations between snapshots that do not depend on where the cursor is now
+            for s2, v2 in st.snaps.items():
+                for sg in (1, -1):
+                    comb = val + v2.scale(sg)
+                    if not comb.mentions(lambda a: a[0] == "av"):
+                        rel = atom(snap) + atom(s2).scale(sg) - comb
+                        self.pending += [rel, rel.scale(-1)]
+            st.snaps[snap] = val
+            L = (atom(B) + atom(snap)) if B is not None else atom(snap)
         st.sym[var] = L
         return st
 
@@ -759,6 +1188,9 @@ class FnBounds(object):
         B = bases[0]
         ext = self.extent[B]
         off = ptr - atom(B)
+        if off.mentions(lambda a: a[0] == "ld" and len(a) > 2 and a[2] in ("sprintf", "snprintf", "vsprintf")):
+            self.record(node, kind, text, "undecided", "offset is the return value of %s" % [a for a in off.atoms() if a[0] == "ld"][0][2])
+            return
         need_hi = ext - off - n
         ok_lo = self.prove(off, st)
         ok_hi = self.prove(need_hi, st)
@@ -766,7 +1198,7 @@ class FnBounds(object):
         if ok_lo and ok_hi and ok_n:
             self.record(node, kind, text, "ok", "%s bytes at offset %s within extent %s" % (n, off, ext))
         else:
-            if B[0] == "p0" and B[1] not in self.pairs:
+            if B[0] == "p0" and B[1] not in self.pairs and self.extent[B].mentions(lambda a: a[0] == "xext"):
                 if self.export and ok_lo:
                     # requirement on the caller: `off + n` bytes must be readable behind parameter B
                     need = off + n
@@ -797,6 +1229,7 @@ class FnBounds(object):
             return
         if old is not None and old.verdict == "undecided" and verdict == "ok":
             return
+        self.evals = getattr(self, "evals", 0) + 1
         self.obls[node["id"]] = Obligation(node, kind, text, verdict, why)
 
     # ------------------------------------------------------------------ transfer
@@ -804,6 +1237,15 @@ class FnBounds(object):
         k = n["k"]
         f = self.f
         self.pending = []
+        if n["id"] in self.init_member:
+            # constructor initialiser of a scalar member: member == value
+            fa = ("fld", self.init_member[n["id"]])
+            t = facts.ty(f, n)
+            if is_int(t) or is_ptr(t) or k == "ImplicitValueInitExpr":
+                R = const(0) if k == "ImplicitValueInitExpr" else self.lin(n, st, pos)
+                self.kill_atoms(st, lambda a: a == fa)
+                if R is not None:
+                    st.facts = frozenset(set(st.facts) | set([atom(fa) - R, R - atom(fa)]))
         if k == "DeclStmt":
             for ch in n.get("c", []):
                 if ch.get("k") != "VarDecl":
@@ -834,6 +1276,37 @@ class FnBounds(object):
                         self.set_var(st, var, None, ch)
                 elif t and t.get("k") == "ref":
                     pass
+                elif t and t.get("k") == "rec" and ch.get("c") and (t.get("name") or "").startswith("Tins::PDUOption<"):
+                    # option returned by RadioTap::do_find_option(FLAG): size known from the shared field table
+                    for x in facts.walk(ch["c"][0]):
+                        if x["k"] == "CXXMemberCallExpr" and x.get("cname") == "do_find_option" and \
+                                x.get("crec") == "Tins::RadioTap" and len(cfg.args(x)) == 1:
+                            fl = facts.cval(cfg.args(x)[0])
+                            tbl = radiotap_option_sizes(self.db)
+                            if tbl is not None and fl in tbl:
+                                fa = ("fld", ch["name"] + ".real_size_")
+                                self.kill_atoms(st, lambda a: a == fa)
+                                self.pending += [atom(fa) - tbl[fl], const(tbl[fl]) - atom(fa)]
+                            break
+                elif t and t.get("k") == "rec" and ch.get("c"):
+                    # byte vector constructed with a size:  vector<uint8_t> v(n) / v(n, x) / v(first, last)
+                    init = strip(ch["c"][0])
+                    fake = {"id": ch["id"], "k": "DeclRefExpr", "name": ch["name"], "var": var, "t": ch.get("t")}
+                    if init["k"] in ("CXXConstructExpr", "CXXTemporaryObjectExpr") and self.vec_base(fake) is not None:
+                        a_ = init.get("c", [])
+                        sz = ("call", ch["name"] + ".size()")
+                        self.kill_atoms(st, lambda a: a == sz)
+                        N = None
+                        if len(a_) >= 1 and is_int(facts.ty(f, strip(a_[0]))) and not (len(a_) >= 2 and is_ptr(facts.ty(f, strip(a_[1])))):
+                            N = self.lin(a_[0], st, pos)
+                        elif len(a_) >= 2 and is_ptr(facts.ty(f, strip(a_[0]))) and is_ptr(facts.ty(f, strip(a_[1]))):
+                            A_, B_ = self.lin(a_[0], st, pos), self.lin(a_[1], st, pos)
+                            if A_ is not None and B_ is not None:
+                                N = B_ - A_
+                        elif len(a_) == 0 or (len(a_) == 1 and strip(a_[0])["k"] == "CXXDefaultArgExpr"):
+                            N = const(0)
+                        if N is not None:
+                            self.pending += [atom(sz) - N, N - atom(sz)]
             return self.flush_pending(st)
         if k in ("BinaryOperator", "CompoundAssignOperator") and n.get("op") in ("=", "+=", "-="):
             l = strip(n["c"][0])
@@ -883,6 +1356,7 @@ class FnBounds(object):
                     tl = facts.ty(f, l)
                     d = self.elem_size(tl) if is_ptr(tl) else 1
                     cur = st.sym[l["var"]]
+                    self.incval[n["id"]] = cur if n.get("postfix") else (cur + d if op == "++" else cur - d)
                     new = cur + d if op == "++" else cur - d
                     if op == "--" and is_unsigned(tl) and not self.prove(new, st):
                         new = None
@@ -901,6 +1375,34 @@ class FnBounds(object):
             if not (p is not None and p["k"] in ("BinaryOperator", "CompoundAssignOperator") and
                     p.get("op", "").endswith("=") and p["op"] not in ("==", "!=", "<=", ">=") and strip(p["c"][0]) is n):
                 self.deref(n, st)
+            return self.flush_pending(st)
+        if k == "MemberExpr" and n.get("isfield") and n.get("member") in UNION_ARMS and \
+                "PDUOption<" in (n.get("mrec") or ""):
+            # discriminated union of PDUOption: the arm used must be the one real_size_ selects
+            arm = UNION_ARMS[n["member"]]
+            owner = strip(n["c"][0])                      # x.payload_
+            obj = strip(owner["c"][0]) if owner.get("c") else None
+            prefix = ""
+            if obj is not None and obj["k"] != "CXXThisExpr":
+                prefix = facts.expr_str(obj) + ("->" if is_ptr(facts.ty(f, obj)) else ".")
+            rs = atom(("fld", prefix + "real_size_"))
+            thr = None
+            orec = self.db.records.get((n.get("mrec") or "").rsplit("::", 1)[0])
+            for s_ in (orec or {}).get("statics", []):
+                if s_["name"] == "small_buffer_size":
+                    thr = s_.get("v")
+            if thr is None:
+                self.record(n, "union-arm", facts.expr_str(n), "undecided", "small_buffer_size not found")
+            else:
+                G = (rs - (thr + 1)) if arm == "big" else (const(thr) - rs)
+                txt = "%s requires real_size_ %s %d" % (facts.expr_str(n), ">" if arm == "big" else "<=", thr)
+                if self.prove(G, st):
+                    self.record(n, "union-arm", txt, "ok", "selected by the dominating comparison of real_size_ with small_buffer_size")
+                else:
+                    self.record(n, "union-arm", txt, "violation",
+                                "the %s arm of the payload union is used where real_size_ %s %d is not established; facts: {%s}" %
+                                ("heap-pointer" if arm == "big" else "inline-buffer", ">" if arm == "big" else "<=", thr,
+                                 ", ".join("%s>=0" % x for x in sorted(st.facts, key=repr)[:8])))
             return self.flush_pending(st)
         if k == "MemberExpr" and n.get("isfield") and n.get("arrow"):
             # p->field through a casted buffer pointer
@@ -950,9 +1452,10 @@ class FnBounds(object):
             P = (P0 + I.scale(sz)) if (P0 is not None and I is not None) else None
             if P0 is not None and not any(a in self.extent for a in P0.atoms()):
                 return
-        if P is None:
-            return
-        if not any(a in self.extent for a in P.atoms()):
+        if P is None or not any(a in self.extent for a in P.atoms()):
+            if n["id"] in self.obls and self.obls[n["id"]].verdict == "ok":
+                self.record(n, "deref", facts.expr_str(n), "undecided",
+                            "on a later path the pointer is no longer derived from a tracked buffer (%s)" % P)
             return
         self.oblige(n, "deref", P, const(sz), st, facts.expr_str(n), write)
 
@@ -991,7 +1494,8 @@ class FnBounds(object):
                 st.streams[var] = (atom(b), N)
             st.facts = frozenset(set(st.facts) | set([atom(av) - N, N - atom(av)]))
         elif len(args) == 1:
-            b = ("sb", var)
+            vb = self.vec_base(strip(args[0]))
+            b = vb if vb is not None else ("sb", var)
             e = atom(("call", facts.expr_str(args[0]) + ".size()"))
             self.extent[b] = e
             st.streams[var] = (atom(b), e)
@@ -1049,14 +1553,21 @@ class FnBounds(object):
             rsz = self.read_size(n)
             if rsz is not None:
                 if rsz == "unknown":
-                    return self.consume(st, sv, None)
+                    return self.consume(st, sv, None, n["id"])
                 if isinstance(rsz, tuple):
                     L = self.lin(cfg.args(n)[rsz[1]], st, pos)
                     # destination capacity for read(void*, n)
                     if cname == "read":
                         self.dest_capacity(n, cfg.args(n)[0], L, st)
-                    return self.consume(st, sv, L)
-                return self.consume(st, sv, rsz)
+                        d0 = strip(cfg.args(n)[0])
+                        if L is not None and self.vec_base(d0) is not None:
+                            sz = ("call", facts.expr_str(d0) + ".size()")
+                            self.kill_atoms(st, lambda a: a == sz)
+                            # size(vec) == n, expressed before the stream moves so that it is rewritten with it
+                            st.facts = frozenset(set(st.facts) | set([atom(sz) - L, L - atom(sz)]))
+                            return self.consume(st, sv, L, n["id"])
+                    return self.consume(st, sv, L, n["id"])
+                return self.consume(st, sv, rsz, n["id"])
             if cname == "size" and len(cfg.args(n)) == 1:
                 # shrink/grow the stream view: must not exceed what is there
                 L = self.lin(cfg.args(n)[0], st, pos)
@@ -1071,7 +1582,7 @@ class FnBounds(object):
                                 "stream.size(%s) may enlarge the readable window beyond the bytes that remain" % L)
                 base, ext = st.streams[sv]
                 # pointer unchanged: consumed offset (ext - av) is frozen in a ghost atom
-                offa = ("ld", n["id"], "consumed")
+                offa = ("ld", str(n["id"]), "consumed")
                 self.fresh.add(offa)
                 self.kill_atoms(st, lambda a: a == ("av", sv))
                 st.streams[sv] = (base, atom(offa) + L)
@@ -1143,12 +1654,15 @@ class FnBounds(object):
         args = cfg.args(n) if k in ("CallExpr", "CXXMemberCallExpr", "CXXOperatorCallExpr") else n.get("c", [])
         cname = n.get("cname")
         callee = n.get("callee")
+        self.check_call_preconditions(n, args, st, pos)
+        pre_idx = set(pi for (q_, pi) in list(PRECONDITIONS) + list(OUT_BUFFERS)
+                      if callee and self.db.fn(callee) is not None and self.db.fn(callee)["qual"] == q_)
         # streams passed by non-const reference lose their facts
         for a in args:
             a0 = facts.strip_all(a)
             if a0["k"] == "DeclRefExpr" and a0.get("var") in st.streams and tname(facts.ty(f, a0)) in (STREAM, OSTREAM):
                 pt = None
-                self.consume(st, a0["var"], None)
+                self.consume(st, a0["var"], None, n["id"])
         if n.get("ext") and cname in EXT_SINKS:
             for pi, li, mode in EXT_SINKS[cname]:
                 if pi < len(args) and li < len(args):
@@ -1171,6 +1685,9 @@ class FnBounds(object):
         while i < len(args):
             a = args[i]
             ta = facts.ty(f, strip(a)) if isinstance(a, dict) else None
+            if isinstance(a, dict) and is_ptr(ta) and i in pre_idx:
+                i += 1
+                continue
             if isinstance(a, dict) and is_ptr(ta):
                 P = self.lin(a, st, pos)
                 tracked = P is not None and any(x in self.extent for x in P.atoms())
@@ -1180,10 +1697,17 @@ class FnBounds(object):
                     tn_ = facts.ty(f, strip(nxt)) if isinstance(nxt, dict) else None
                     tp_ = facts.ty(f, strip(prv)) if isinstance(prv, dict) else None
                     if nxt is not None and is_ptr(tn_):
-                        self.iter_pair(n, a, nxt, st)
-                        i += 2
-                        continue
-                    if nxt is not None and is_int(tn_):
+                        Q = self.lin(nxt, st, pos)
+                        same = Q is not None and [x for x in Q.atoms() if x in self.extent] == [x for x in P.atoms() if x in self.extent]
+                        if same:
+                            self.iter_pair(n, a, nxt, st)
+                            i += 2
+                            continue
+                    nxt_is_len = nxt is not None and is_int(tn_)
+                    if nxt_is_len and ptypes is not None and i + 1 < len(ptypes) and (ptypes[i + 1] or {}).get("k") == "ref" \
+                            and not ((ptypes[i + 1].get("to") or {}).get("const")):
+                        nxt_is_len = False       # an output parameter, not a length
+                    if nxt_is_len:
                         L = self.lin(nxt, st, pos)
                         self.oblige(a, "sink:" + (cname or "ctor"), P, L, st,
                                     "%s(%s, %s)" % (cname or crec.split("::")[-1], facts.expr_str(a)[:40], facts.expr_str(nxt)[:40]))
